@@ -48,6 +48,8 @@ pub const TEMPLATES: &[(&str, &str)] = &[
     // a procedure whose code is long (jump offsets in the hundreds and thousands, beyond the cells the prelude occupies),
     // live across collections, then dropped, then more allocation
     ("long-code", "(define (big x) (cond ((= x 0) 'a0) ((= x 1) 'a1) ((= x 2) 'a2) ((= x 3) 'a3) ((= x 4) 'a4) ((= x 5) 'a5) ((= x 6) 'a6) ((= x 7) 'a7) ((= x 8) 'a8) ((= x 9) 'a9) ((= x 10) 'a10) ((= x 11) 'a11) ((= x 12) 'a12) ((= x 13) 'a13) ((= x 14) 'a14) ((= x 15) 'a15) ((= x 16) 'a16) ((= x 17) 'a17) ((= x 18) 'a18) ((= x 19) 'a19) ((= x 20) 'a20) ((= x 21) 'a21) ((= x 22) 'a22) ((= x 23) 'a23) ((= x 24) 'a24) ((= x 25) 'a25) ((= x 26) 'a26) ((= x 27) 'a27) ((= x 28) 'a28) ((= x 29) 'a29) ((= x 30) 'a30) ((= x 31) 'a31) ((= x 32) 'a32) ((= x 33) 'a33) ((= x 34) 'a34) ((= x 35) 'a35) ((= x 36) 'a36) ((= x 37) 'a37) ((= x 38) 'a38) ((= x 39) 'a39) ((= x 40) 'a40) ((= x 41) 'a41) ((= x 42) 'a42) ((= x 43) 'a43) ((= x 44) 'a44) ((= x 45) 'a45) ((= x 46) 'a46) ((= x 47) 'a47) ((= x 48) 'a48) ((= x 49) 'a49) ((= x 50) 'a50) ((= x 51) 'a51) ((= x 52) 'a52) ((= x 53) 'a53) ((= x 54) 'a54) ((= x 55) 'a55) ((= x 56) 'a56) ((= x 57) 'a57) ((= x 58) 'a58) ((= x 59) 'a59) ((= x 60) 'a60) ((= x 61) 'a61) ((= x 62) 'a62) ((= x 63) 'a63) ((= x 64) 'a64) ((= x 65) 'a65) ((= x 66) 'a66) ((= x 67) 'a67) ((= x 68) 'a68) ((= x 69) 'a69) ((= x 70) 'a70) ((= x 71) 'a71) ((= x 72) 'a72) ((= x 73) 'a73) ((= x 74) 'a74) ((= x 75) 'a75) ((= x 76) 'a76) ((= x 77) 'a77) ((= x 78) 'a78) ((= x 79) 'a79) (else 'none))) (big 3) (list (big 79) (big 100)) (define big 0) (define (build n acc) (if (= n 0) acc (build (- n 1) (cons n acc)))) (define bl (build 60 '())) (apply + bl)"),
+    // output of every kind of datum, character by character and as a whole, with work in between
+    ("output-of-all-kinds", "(define (ruler n) (display #\\[) (let lp ((i 0)) (if (< i n) (begin (display #\\-) (lp (+ i 1))) 'ruled)) (display #\\]) (newline)) (ruler 5) (begin (display \"text\") (write \"text\") (write #\\x) (display (list 1 \"s\" #\\c (vector 2.5 'sym))) (newline) (write (list 1 \"s\" #\\c)) (ruler 2) 'shown)"),
     // a ring of the newest continuations: older ones, and everything only they reach, must be reclaimable
     ("continuation-ring", "(define ring (make-vector 3 #f)) (define (cap i) (call/cc (lambda (c) (vector-set! ring (modulo i 3) c) i))) (let lp ((i 0) (acc 0)) (if (< i 9) (lp (+ i 1) (+ acc (cap i))) acc))"),
 ];
